@@ -666,14 +666,14 @@ def depends(F, fn, d, op, max_locals=400, use_bb=None):
 
 
 def origin_deep(d, op, through=()):
-    """origin of a value, continued through struct literals: `x.f` where x = S { f: v, .. } resolves to the origin of v"""
+    """origin of a value, continued through struct and tuple literals: `x.f` where x = S { f: v, .. } (or `x.0` where x = (v, w)) resolves to the origin of v"""
     o = d.origin_op(op, through)
     for _ in range(6):
         base, prs = o, []
         while base.get("k") == "field":
             prs = [e.get("f") for e in base.get("proj", []) if isinstance(e, dict)] + prs
             base = base["base"]
-        if base.get("k") == "agg" and base["rv"].get("agg") == "adt" and len(prs) == 1 and isinstance(prs[0], int) and \
+        if base.get("k") == "agg" and base["rv"].get("agg") in ("adt", "tuple") and len(prs) == 1 and isinstance(prs[0], int) and \
                 prs[0] < len(base["rv"].get("ops", []) or []):
             o = d.origin_op(base["rv"]["ops"][prs[0]], through)
             continue
@@ -683,30 +683,74 @@ def origin_deep(d, op, through=()):
 
 def every_iteration_passes(fn, via_bbs):
     """for each loop (back edges grouped by head) containing one of via_bbs: can an iteration go round (reach a back-edge
-    tail from the loop head, staying inside the loop) without passing any of them? Returns the (head, tail) pairs it can."""
+    tail from the loop head, staying inside the loop) without passing any of them? Returns the (head, tail) pairs it can.
+    Boolean / integer constants assigned on the way are followed through copies, so `ok = false; .. if !ok { break }` does
+    not count as a way round."""
+    from .facts import op_local as _ol
     out = []
     via = set(via_bbs)
     heads = {}
     for tl, hd in fn.back_edges():
         heads.setdefault(hd, []).append(tl)
+
+    def step(bb, env):
+        env = dict(env)
+        for s in fn.blocks[bb]["stmts"]:
+            if s["k"] != "assign" or s["place"]["p"]:
+                continue
+            rv, l = s["rv"], s["place"]["l"]
+            val = None
+            if rv["k"] == "use":
+                k = rv["op"].get("k") if isinstance(rv["op"], dict) else None
+                if isinstance(k, dict) and "bits" in k:
+                    val = k["bits"]
+                else:
+                    src = _ol(rv["op"])
+                    pl = rv["op"].get("mv") or rv["op"].get("cp") or {}
+                    if src is not None and not pl.get("p") and src in env:
+                        val = env[src]
+            elif rv["k"] == "un" and rv.get("op") == "Not":
+                a = env.get(_ol(rv["a"]))
+                if a is not None:
+                    val = 1 - int(a)
+            if val is None:
+                env.pop(l, None)
+            else:
+                env[l] = val
+        t = fn.term(bb)
+        succs = list(fn.succ(bb))
+        if t["k"] == "call" and not t["dest"]["p"]:
+            env.pop(t["dest"]["l"], None)
+        if t["k"] == "switch":
+            cv = env.get(_ol(t["op"]))
+            if cv is not None:
+                hit = [tb for v, tb in t["targets"] if v == cv]
+                succs = hit[:1] if hit else [t["otherwise"]]
+        return succs, env
     for hd, tails in sorted(heads.items()):
         body = set()
         for tl in tails:
             body |= fn.natural_loop(tl, hd)
         if not (via & body) or hd in via:
             continue
-        seen, st = {hd}, [hd]
-        while st:
-            x = st.pop()
-            for y in fn.succ(x):
-                if y in body and y not in seen and y not in via:
-                    seen.add(y)
-                    st.append(y)
+        start = (hd, ())
+        seen, st = {start}, [start]
+        reached = set()
+        while st and len(seen) < 20000:
+            x, envt = st.pop()
+            succs, env = step(x, dict(envt))
+            for y in succs:
+                if y == hd and x in tails:
+                    reached.add(x)
+                if y in body and y not in via and y != hd:
+                    key = (y, tuple(sorted(env.items())))
+                    if key not in seen:
+                        seen.add(key)
+                        st.append(key)
         for tl in tails:
-            if tl in seen and tl not in via:
+            if tl in reached and tl not in via:
                 out.append((hd, tl))
     return out
-
 
 def fields_feeding(F, fn, d, op, adt_suffix, max_locals=400, use_bb=None):
     """names of the fields of the struct `adt_suffix` that an operand is computed from (backward data dependence inside one
